@@ -290,3 +290,7 @@ class Program(object):
             if not dependents.get(command.result_name)
         ):
             command.run()
+
+        # Run anything not reached from a leaf node (commands in a reference cycle have no leaf)
+        for command in self.commands.values():
+            command.run()
